@@ -106,11 +106,10 @@ Proof. now destruct c as [[]|]. Qed.
 Lemma cr_priv_pub_priv mar c : option_map cr_view (CR_toPrivate (cr_toPublic mar c)) = option_map cr_view c.
 Proof. now destruct c as [[]|]. Qed.
 Lemma CR_raw_is_remarshalled mar c :
-  CR_Raw <$> Some c = CR_Raw <$> Some c -> (* (trivial premise keeps the statement shape uniform) *)
   option_map CR_Raw (cr_toPublic mar (CR_toPrivate (Some c))) =
   Some (match mar (CR_OcspStapling c) (CR_Scts c) (CR_SupportedSignatureAlgorithms c) (CR_SupportedSignatureAlgorithmsCert c)
                   (CR_CertificateAuthorities c) with Some r => r | None => [] end).
-Proof. intros _. now destruct c. Qed.
+Proof. now destruct c. Qed.
 Lemma cr_original_dropped mar c : option_map cr_original (CR_toPrivate (cr_toPublic mar (Some c))) = Some None.
 Proof. now destruct c. Qed.
 
@@ -169,7 +168,7 @@ Proof.
 Qed.
 
 (* ---- fields without counterpart, computed from the field tables ---- *)
-Open Scope string_scope.
+Local Open Scope string_scope.
 Lemma without_counterpart_is : without_counterpart =
   [("ClientHello", (["cachedPrivateHello"], ["extensions"]));
    ("ServerHello", ([], ["supportedPoints"; "encryptedClientHello"; "serverNameAck"]));
